@@ -14,7 +14,10 @@ REQUIRED_THEOREMS = ["comparison_roundtrip", "condition_roundtrip", "linear_adju
                      "discrete_lookup_roundtrip", "contextmatch_roundtrip", "context_calibrator_roundtrip",
                      "default_calibrator_roundtrip", "context_list_roundtrip", "int_encoding_roundtrip",
                      "float_encoding_roundtrip", "binary_encoding_roundtrip", "anded_roundtrip", "ored_roundtrip",
-                     "boolexpr_roundtrip", "group_children", "string_encoding_roundtrip"]
+                     "boolexpr_roundtrip", "group_children", "string_encoding_roundtrip", "data_encoding_roundtrip",
+                     "plain_type_roundtrip", "enum_type_roundtrip", "ptype_roundtrip", "parameter_roundtrip",
+                     "restriction_roundtrip", "container_roundtrip_known", "container_set_fold", "popFold_exact",
+                     "populate_erased", "type_set_fold", "param_set_fold", "definition_roundtrip", "exDef_wf"]
 RULE = ("requests `cyclexml <prefix> <nsmap> <root> <tree>` (definitions loaded from independently written XML, with units, "
         "descriptions incl. empty ones, time types, every optional attribute at non-default values) and `cycleobj <ldef>` "
         "(definitions assembled from objects): write, load, write, load, write on both sides; the by-name serialisation of "
